@@ -6,7 +6,7 @@ import struct
 from typing import Dict, List, Optional, Tuple
 
 from sa.astx import NotConst, call_attr, call_name, const_eval, dotted, lincmp, module_consts, src, statements, walk_local
-from sa.props._lib_g import (class_const, expand, fmt_lin, fresh, is_self_attr, lin_equal, lin_expect, module_classes, must_pass, norm_cmp,
+from sa.props._lib_g import (attrs_to_names, class_const, expand, fmt_lin, fresh, is_self_attr, lin_equal, lin_expect, module_classes, must_pass, norm_cmp,
                              single_defs, struct_codes)
 from sa.selftest import Mutant, Silent
 from sa.source import AnalysisError, base_names, class_assigns, methods, mro_lookup
@@ -16,18 +16,19 @@ DNS = "names/dns.py"
 Q = "twisted.names.dns"
 TECHNIQUE = "symbolic wire layout of encode vs decode, table agreement, finite bit-field evaluation, guard dominance"
 EXPLANATION = (
-    "For every class with encode/decode the ordered wire layout written by encode (struct codes, length prefixes, raw "
-    "fields, nested objects, conditional and repeated parts) is extracted symbolically and must equal the layout read "
-    "by decode, attribute by attribute (frozen, documented exceptions: Name's pointer form, RRHeader's back-patched "
-    "rdlength, Record_TSIG's 48-bit time, the delegating _OPTHeader).  The Message header and the OPT TTL bit fields "
-    "are evaluated on a finite grid against RFC 1035/2535/6891 bit positions in both directions; the four counters "
-    "are paired with the four sections in the same order both ways.  The registry _recordTypes is built from every "
-    "Record_* class (all defined before Message, pairwise distinct TYPEs, constructible with ttl=), unknown types fall "
-    "back to UnknownRecord.  Attributes set by decode are compared by == (compareAttributes) and vice versa.  "
-    "Truncation: the size test is exactly size > maxSize, sets trunc before the flags byte is computed and cuts the body "
-    "to maxSize - headerSize; decoding stops at a record boundary on EOFError and appends only fully decoded records.  "
-    "Name.encode must refuse labels longer than 63 bytes and compression offsets >= 0x4000: both guards are missing "
-    "(known finding F32).  Not decided: value equality of whole messages, the vendored third-party decoder."
+    'For every class with encode/decode the ordered wire layout written by encode (struct codes, length prefixes, raw '
+    'fields, nested objects, conditional and repeated parts) is extracted symbolically and must equal the layout read '
+    "by decode attribute by attribute, with byte accounting for length-delimited fields (frozen exceptions: Name's "
+    "pointer form, RRHeader's back-patched rdlength, Record_TSIG's 48-bit time, the delegating _OPTHeader, each with "
+    'its own rule). Message header flags, the OPT TTL fields and the EDNS rCode split are evaluated on finite grids '
+    'against RFC 1035/2535/6891 bit positions in both directions, and the four counters are paired with the four '
+    'sections in the same order both ways. The registry _recordTypes is built from every Record_* class (all defined '
+    'before Message, pairwise distinct TYPEs, constructible with ttl=, unknown types fall back to UnknownRecord) and '
+    'the attributes set by decode are exactly those compared by ==. Truncation: the size test is exactly size > '
+    'maxSize, sets trunc before the flags byte is computed and cuts the body to maxSize - headerSize; decoding stops '
+    'quietly on EOFError and appends only fully decoded records. Name.encode must refuse labels longer than 63 bytes '
+    'and compression offsets >= 0x4000: both guards are missing (known finding F32). Not decided: value equality of '
+    'whole messages, compression optimality, the vendored third-party decoder.'
 )
 ASSUMPTIONS = [
     "struct format codes have their CPython standard sizes under the '!' prefix",
@@ -535,8 +536,10 @@ def check_layouts(ctx, mod, consts):
         got = class_const(mod, cc, attr, consts)
         ctx.check(got == want, "layout/spec-format", f"{Q}.{cname} | {attr}", f"{cname}.{attr} is {got!r}; the wire format is {want!r}: {why}")
     qe = methods(allc["Query"])["encode"] if "Query" in allc else _fail("Query vanished")
-    qf = _formats(qe, mod, allc["Query"], consts, ("struct.pack", "pack"))
-    ctx.check(qf == ["!HH"], "layout/spec-format", f"{Q}.Query | <format>", f"a question is written with {qf}; the wire format is QTYPE(16) QCLASS(16)")
+    qf = [f for c in ast.walk(qe) if _is_pack(c) and c.args for f in [_fmt_of(c.args[0], mod, allc["Query"], consts)]]
+    qcodes = [code for f in qf for code in (struct_codes(f) if f else ["?"])]
+    ctx.check(qcodes == ["H", "H"] and all(f and f[0] in "!>" for f in qf), "layout/spec-format", f"{Q}.Query | <format>",
+              f"a question is written with {qf}; the wire format is QTYPE(16) QCLASS(16) in network byte order")
 
     # byte accounting inside length-delimited records
     for c in classes:
@@ -722,15 +725,7 @@ _HEADER_BITS = {  # attribute -> (byte index 3|4, shift, width)   RFC 1035 4.1.1
 
 
 def _attr_names(expr, recv="self"):
-    e = fresh(expr)
-
-    class T(ast.NodeTransformer):
-        def visit_Attribute(self, node):
-            if isinstance(node.value, ast.Name) and node.value.id == recv:
-                return ast.Name(id=f"{recv}__{node.attr}", ctx=ast.Load())
-            return self.generic_visit(node)
-
-    return T().visit(e)
+    return attrs_to_names(expr, recv)
 
 
 def check_header(ctx, mod, consts):
@@ -801,7 +796,15 @@ def check_header(ctx, mod, consts):
         ctx.check(bad is None, "header/flags", q + f" | {attr}", bad or "", detail=f"{2 * len(vals)} evaluations each way")
     ctx.check(zbad is None, "header/flags", q + " | <reserved Z bit>", zbad or "")
     # counts <-> sections, same order both ways
-    sections_enc = [src(st.iter) for st in enc.body if isinstance(st, ast.For) and is_self_attr(st.iter)]
+    sections_enc = []
+    for st in enc.body:
+        if isinstance(st, ast.For) and is_self_attr(st.iter) and any(isinstance(c, ast.Call) and call_attr(c) == "encode" for c in ast.walk(st)):
+            sections_enc.append(src(st.iter))
+        elif isinstance(st, ast.For) and isinstance(st.iter, (ast.Tuple, ast.List)) and all(is_self_attr(e) for e in st.iter.elts) \
+                and any(isinstance(c, ast.Call) and call_attr(c) == "encode" for c in ast.walk(st)):
+            sections_enc.extend(src(e) for e in st.iter.elts)
+    if not sections_enc:
+        _fail("Message.encode: the loops writing the four sections were not recognised")
     counts_enc = [src(a.args[0]) if isinstance(a, ast.Call) and call_name(a) == "len" and a.args else src(a) for a in pa[3:]]
     ctx.check(sections_enc == counts_enc == ["self.queries", "self.answers", "self.authority", "self.additional"], "header/sections", q + ".encode | <section order>",
               f"sections are written in the order {sections_enc} and counted as {counts_enc}; both must be queries, answers, authority, additional")
@@ -862,6 +865,76 @@ def check_opt(ctx, mod, consts):
     wl = [st for st in ast.walk(frm) if isinstance(st, ast.While)]
     okr = len(wl) == 1 and any(isinstance(c, ast.Call) and call_attr(c) == "decode" for c in ast.walk(wl[0])) and any(isinstance(c, ast.Call) and call_name(c) == "options.append" for c in ast.walk(wl[0]))
     ctx.check(okw and okr, "opt/fields", q + " | options", "the variable options are not written as the record payload and read back until the payload is exhausted")
+
+
+def check_edns(ctx, mod, consts):
+    """_EDNSMessage <-> Message + OPT record: the same fields travel both ways; the 12-bit rCode is split 8/4 and rejoined."""
+    to = ctx.func(DNS, "_EDNSMessage._toMessage")
+    frm = ctx.func(DNS, "_EDNSMessage._fromMessage")
+    q = Q + "._EDNSMessage"
+    mk = [c for c in ast.walk(to) if isinstance(c, ast.Call) and call_name(c) == "self._messageFactory"]
+    ok_ = [c for c in ast.walk(to) if isinstance(c, ast.Call) and call_name(c) == "_OPTHeader"]
+    if len(mk) != 1 or len(ok_) != 1:
+        _fail("_EDNSMessage._toMessage: message/OPT construction not found")
+    mkw = {k.arg: k.value for k in mk[0].keywords}
+    okw = {k.arg: k.value for k in ok_[0].keywords}
+    msgp = frm.args.args[1].arg
+    back = [c for c in ast.walk(frm) if isinstance(c, ast.Call) and call_name(c) == "cls"]
+    if len(back) != 1:
+        _fail("_EDNSMessage._fromMessage: cls(...) construction not found")
+    bkw = {k.arg: k.value for k in back[0].keywords}
+    # plain header fields: written from self.X, read back from message.X
+    plain = ("id", "answer", "opCode", "auth", "trunc", "recDes", "recAv", "authenticData", "checkingDisabled")
+    for a in plain:
+        ctx.check(a in mkw and src(mkw[a]) == f"self.{a}" and a in bkw and src(bkw[a]) == f"{msgp}.{a}", "edns/field-mapping", f"{q} | {a}",
+                  f"`{a}` does not travel as Message.{a} in both directions (to: {src(mkw[a]) if a in mkw else None}, from: {src(bkw[a]) if a in bkw else None})")
+    for sec in ("queries", "answers", "authority"):
+        copied = any(isinstance(st, ast.Assign) and src(st.targets[0]).endswith("." + sec) and src(st.value) in (f"self.{sec}[:]", f"list(self.{sec})", f"self.{sec}") for st in statements(to))
+        ctx.check(copied and sec in bkw and src(bkw[sec]) in (f"{msgp}.{sec}[:]", f"list({msgp}.{sec})", f"{msgp}.{sec}"), "edns/field-mapping", f"{q} | {sec}",
+                  f"section `{sec}` is not copied unchanged in both directions")
+    # OPT-carried fields
+    opt_assign = {}
+    optv = None
+    for st in statements(frm):
+        if isinstance(st, ast.Assign) and len(st.targets) == 1 and isinstance(st.targets[0], ast.Attribute) and isinstance(st.targets[0].value, ast.Name) \
+                and st.targets[0].value.id not in ("self",) and isinstance(st.value, (ast.Attribute, ast.BinOp)):
+            opt_assign[st.targets[0].attr] = st.value
+    for mine, theirs in (("ednsVersion", "version"), ("dnssecOK", "dnssecOK"), ("maxSize", "udpPayloadSize")):
+        w = okw.get(theirs)
+        r = opt_assign.get(mine)
+        ctx.check(w is not None and src(w) == f"self.{mine}" and r is not None and isinstance(r, ast.Attribute) and r.attr == theirs, "edns/field-mapping", f"{q} | {mine}",
+                  f"`{mine}` is written to OPT.{theirs} as {src(w) if w is not None else None} and read back from {src(r) if r is not None else None}")
+    # rCode split
+    lo, hi, join = mkw.get("rCode"), okw.get("extendedRCODE"), opt_assign.get("rCode")
+    bad = None
+    if lo is None or hi is None or join is None:
+        bad = "the rCode split (Message.rCode / OPT.extendedRCODE) or its recombination was not found"
+    else:
+        names = sorted({x.value.id for x in ast.walk(join) if isinstance(x, ast.Attribute) and isinstance(x.value, ast.Name)})
+        for r in (0, 1, 15, 16, 17, 0xFF, 0x100, 0xABC, 0xFFF):
+            try:
+                l = const_eval(attrs_to_names(lo), {"self__rCode": r})
+                h = const_eval(attrs_to_names(hi), {"self__rCode": r})
+                e = fresh(join)
+                for nm in names:
+                    e = attrs_to_names(e, nm)
+                env = {f"{nm}__extendedRCODE": h for nm in names}
+                env.update({f"{nm}__rCode": l for nm in names})
+                j = const_eval(e, env)
+            except NotConst as ex:
+                _fail(f"_EDNSMessage rCode expressions not evaluable: {ex}")
+            if not (0 <= l <= 15 and 0 <= h <= 255 and j == r) and not bad:
+                bad = f"rCode {r:#05x} is sent as Message.rCode={l}, OPT.extendedRCODE={h} and received as {j:#05x}; RFC 6891 6.1.3: lower 4 bits in the header, upper 8 bits in OPT"
+    ctx.check(bad is None, "edns/rcode-split", f"{q} | rCode", bad or "")
+    # the OPT record is looked for in the additional section and removed from it
+    loop = [st for st in frm.body if isinstance(st, ast.For) and src(st.iter) == f"{msgp}.additional"]
+    okl = len(loop) == 1 and any(isinstance(t, ast.Compare) and src(t) in (f"{loop[0].target.id}.type == OPT", f"OPT == {loop[0].target.id}.type") for t in ast.walk(loop[0]))
+    ctx.check(okl, "edns/field-mapping", f"{q}._fromMessage | <OPT extraction>", "OPT pseudo-records are not separated from message.additional by their type")
+    app = [c for c in ast.walk(to) if isinstance(c, ast.Call) and call_attr(c) == "append" and src(c.func.value).endswith(".additional")]
+    tg = ctx.cfg(to)
+    nodes = [n for c in app for n in tg.ids_of(c)]
+    ctx.check(bool(nodes) and all(tg.guarded(n, lambda e: src(e) == "self.ednsVersion is not None", True) for n in nodes), "edns/field-mapping", f"{q}._toMessage | <OPT appended>",
+              "the OPT record is not appended to the additional section exactly when ednsVersion is set")
 
 
 def check_truncation(ctx, mod, consts):
@@ -1019,6 +1092,7 @@ def check(ctx):
     check_name_limits(ctx, mod, consts)
     check_header(ctx, mod, consts)
     check_opt(ctx, mod, consts)
+    check_edns(ctx, mod, consts)
     check_truncation(ctx, mod, consts)
     check_registry(ctx, mod, consts)
     check_compare_attributes(ctx, mod, consts)
@@ -1043,6 +1117,8 @@ MUTANTS = [
     Mutant("authority-additional-counts-swapped", DNS, "                len(self.authority),\n                len(self.additional),\n", "                len(self.additional),\n                len(self.authority),\n",
            expect_rule="header/sections"),
     Mutant("opt-version-unmasked", DNS, "            version=rrHeader.ttl >> 16 & 0xFF,\n", "            version=rrHeader.ttl >> 16,\n", expect_rule="opt/ttl-bits"),
+    Mutant("edns-rcode-upper-bits-shift", DNS, "                extendedRCODE=self.rCode >> 4,\n", "                extendedRCODE=self.rCode >> 8,\n", expect_rule="edns/rcode-split"),
+    Mutant("edns-max-size-not-restored", DNS, "            newMessage.maxSize = opt.udpPayloadSize\n", "", expect_rule="edns/field-mapping"),
     Mutant("truncate-at-exact-size", DNS, "        if self.maxSize and size > self.maxSize:\n", "        if self.maxSize and size >= self.maxSize:\n", expect_rule="truncation/boundary"),
     Mutant("cut-ignores-header", DNS, "            body = body[: self.maxSize - self.headerSize]\n", "            body = body[: self.maxSize]\n", expect_rule="truncation/cut"),
     Mutant("trunc-set-after-flags", DNS, "            self.trunc = 1\n            body = body[: self.maxSize - self.headerSize]\n", "            body = body[: self.maxSize - self.headerSize]\n",
